@@ -17,6 +17,7 @@ import (
 	"io"
 	"math/rand/v2"
 	"os"
+	"strings"
 	"testing"
 	"time"
 
@@ -68,7 +69,10 @@ func vf41File(rng *rand.Rand, id oid.ID, x []byte) ([]byte, string, bool) {
 		for n := rng.IntN(3); n > 0; n-- {
 			f = append(f, other()...)
 		}
-		return f, "combined", len(x) > 0
+		if len(x) == 0 { // a member of length 0 is never written
+			return f, "combined-damaged:len=0", false
+		}
+		return f, "combined", true
 	case w < 70: // combined file with a damaged prefix of the wanted member
 		l := uint32(len(x))
 		what := ""
@@ -80,6 +84,9 @@ func vf41File(rng *rand.Rand, id oid.ID, x []byte) ([]byte, string, bool) {
 			l, what = 1, "len=1"
 		case 2:
 			l, what = l+uint32(rng.IntN(5))-2, "len+-2"
+			if l == 0 {
+				what = "len=0"
+			}
 		case 3:
 			l, what = []uint32{1 << 20, 1 << 26, 1<<31 - 1, 1 << 31, 1<<32 - 1}[rng.IntN(5)], "len=huge"
 		case 4:
@@ -96,13 +103,18 @@ func vf41File(rng *rand.Rand, id oid.ID, x []byte) ([]byte, string, bool) {
 		if what == "version" {
 			m[1] = byte(1 + rng.IntN(255))
 		}
+		prefEnd := len(f) + combinedDataOff
 		f = append(f, m...)
 		if rng.IntN(2) == 0 {
 			f = append(f, other()...)
 		}
 		if rng.IntN(4) == 0 && len(f) > 0 {
 			f = f[:rng.IntN(len(f)+1)]
-			what += ",truncated-file"
+			if len(f) < prefEnd {
+				what = "member-prefix-cut-away"
+			} else {
+				what += ",truncated-file"
+			}
 		}
 		return f, "combined-damaged:" + what, false
 	case w < 85:
@@ -149,6 +161,10 @@ func vf41Child(t *testing.T, specJSON string) {
 		var x []byte
 		kind := ""
 		switch sel := rng.IntN(100); {
+		case i < 24: // header as long as allowed, total size below and above the 20K read-ahead
+			x = vf41.MaxHeaderObject(rng, []int{200, 3500, 60000}[i%3]).Marshal()
+			kind = "valid"
+			c.Count("maximal_header_objects", 1)
 		case sel < 30 || len(pool) == 0:
 			x = vf41.Object(rng).Marshal()
 			if len(pool) < 32 {
@@ -184,9 +200,13 @@ func vf41Child(t *testing.T, specJSON string) {
 			fullOK = full.Unmarshal(x) == nil && len(x) > 0 && bytes.Equal(full.Marshal(), x)
 		}()
 		mustAgree := fullOK && intact && kind[:5] == "valid"
-		var wantHdr []byte
+		var wantHdr, wantHdrField []byte
 		if mustAgree {
 			wantHdr = full.CutPayload().Marshal()
+			if hm := full.ProtoMessage().Header; hm != nil {
+				wantHdrField = make([]byte, hm.MarshaledSize())
+				hm.MarshalStable(wantHdrField)
+			}
 			c.Count("files_with_valid_object_intact", 1)
 		}
 		outcome := ""
@@ -199,11 +219,16 @@ func vf41Child(t *testing.T, specJSON string) {
 				c.Count(fn+"_err", 1)
 			}
 		}
+		// class key of a panic: the wrapping that provoked it and the panicking frame (the
+		// six APIs funnel into two internal readers; the API is named in the description)
+		pfn := func(api string) string {
+			return "fstree[" + strings.TrimSuffix(wrap, ",truncated-file") + "]/" + api
+		}
 		vio := func(fn, class, what string) {
 			c.Violation(fmt.Sprintf("C41|fstree.%s|%s|%s", fn, class, wrap), fmt.Sprintf("fstree.%s on a %s file of %d bytes: %s", fn, kind, len(file), what), kind, file, "")
 		}
 
-		c.Guard("fstree.Head", kind, file, func() {
+		c.Guard(pfn("Head"), kind, file, func() {
 			h, err := fs.Head(addr)
 			note("Head", err)
 			if mustAgree {
@@ -215,7 +240,7 @@ func vf41Child(t *testing.T, specJSON string) {
 				c.Count("agreement_checks_Head", 1)
 			}
 		})
-		c.Guard("fstree.GetStream", kind, file, func() {
+		c.Guard(pfn("GetStream"), kind, file, func() {
 			h, rd, err := fs.GetStream(addr)
 			note("GetStream", err)
 			if err == nil && rd != nil {
@@ -231,7 +256,7 @@ func vf41Child(t *testing.T, specJSON string) {
 				c.Count("agreement_checks_GetStream", 1)
 			}
 		})
-		c.Guard("fstree.ReadHeader", kind, file, func() {
+		c.Guard(pfn("ReadHeader"), kind, file, func() {
 			buf := make([]byte, 2*vf41NPFBL)
 			n, err := fs.ReadHeader(addr, buf)
 			note("ReadHeader", err)
@@ -244,7 +269,7 @@ func vf41Child(t *testing.T, specJSON string) {
 				c.Count("agreement_checks_ReadHeader", 1)
 			}
 		})
-		c.Guard("fstree.ReadObject", kind, file, func() {
+		c.Guard(pfn("ReadObject"), kind, file, func() {
 			buf := make([]byte, 2*vf41NPFBL)
 			_, rd, err := fs.ReadObject(addr, buf)
 			note("ReadObject", err)
@@ -256,22 +281,36 @@ func vf41Child(t *testing.T, specJSON string) {
 				vio("ReadObject", "error-for-valid", err.Error())
 			}
 		})
-		c.Guard("fstree.ReadObjectParts", kind, file, func() {
+		c.Guard(pfn("ReadObjectParts"), kind, file, func() {
 			buf := make([]byte, 2*vf41NPFBL)
 			calls := 0
+			var seen []byte
 			rngReq := common.PayloadRange{}
 			if rng.IntN(2) == 0 {
 				rngReq = common.NewPayloadRange(uint64(rng.IntN(50)), uint64(rng.IntN(50)))
 			}
-			_, rd, err := fs.ReadObjectParts(buf, addr, rngReq, func([]byte) error { calls++; return nil })
+			_, rd, err := fs.ReadObjectParts(buf, addr, rngReq, func(h []byte) error { calls++; seen = bytes.Clone(h); return nil })
 			note("ReadObjectParts", err)
 			if err == nil && rd != nil {
 				vf41Drain(rd)
 				_ = rd.Close()
 			}
+			if mustAgree {
+				if err != nil && !rngReq.IsSet() {
+					vio("ReadObjectParts", "error-for-valid", err.Error())
+				}
+				if wantHdrField != nil {
+					if calls != 1 {
+						vio("ReadObjectParts", "header-not-handed-over", fmt.Sprintf("header callback called %d times (err=%v)", calls, err))
+					} else if !bytes.Equal(seen, wantHdrField) {
+						vio("ReadObjectParts", "located-header-differs-from-full-decoding", fmt.Sprintf("callback got %d bytes, header field has %d", len(seen), len(wantHdrField)))
+					}
+					c.Count("agreement_checks_ReadObjectParts_header", 1)
+				}
+			}
 		})
-		c.Guard("fstree.GetRangeStream", kind, file, func() {
-			h, _, rd, err := fs.GetRangeStream(addr, common.NewPayloadRange(0, 0), true)
+		c.Guard(pfn("GetRangeStream"), kind, file, func() {
+			h, pl, rd, err := fs.GetRangeStream(addr, common.NewPayloadRange(0, 0), true)
 			note("GetRangeStream", err)
 			if err == nil && rd != nil {
 				vf41Drain(rd)
@@ -282,6 +321,8 @@ func vf41Child(t *testing.T, specJSON string) {
 					vio("GetRangeStream", "error-for-valid", err.Error())
 				} else if h == nil || !bytes.Equal(h.CutPayload().Marshal(), wantHdr) {
 					vio("GetRangeStream", "header-differs-from-full-decoding", "")
+				} else if pl != full.PayloadSize() {
+					vio("GetRangeStream", "payload-length-differs-from-full-decoding", fmt.Sprintf("got %d, header says %d", pl, full.PayloadSize()))
 				}
 				c.Count("agreement_checks_GetRangeStream", 1)
 			}
@@ -305,10 +346,10 @@ func TestVerif_C41(t *testing.T) {
 	}
 	r := verifkit.Start(t, "C41", "exploration")
 	defer r.Finish()
-	nBatches, perBatch := r.Pick(3, 16), r.Pick(2500, 12000)
+	nBatches, perBatch := r.Pick(3, 8), r.Pick(2500, 8000)
 	r.SetRule(fmt.Sprintf("%d child processes x %d files: object bytes (generated valid / truncated / 1-3 mutations / random) stored plain, inside a well-formed combined file, inside a combined file whose member prefix is damaged (length 0, 1, +-2, huge; other OID; bad version; truncated file), zstd-compressed, or as a damaged zstd stream; Head, GetStream, ReadHeader, ReadObject, ReadObjectParts, GetRangeStream must not panic and must agree with object.Unmarshal for intact valid content; distinct = (content kind, wrapping, ok/error pattern)", nBatches, perBatch))
 	vf41.RunBatches(t, r, "TestVerif_C41", "fstree", nBatches, perBatch, 25*time.Minute)
-	if r.Counter("agreement_checks_Head") == 0 {
+	if r.Counter("agreement_checks_Head") == 0 || r.Counter("maximal_header_objects") == 0 {
 		r.Inconclusive("no intact valid object was read")
 	}
 }
